@@ -253,6 +253,14 @@ def draw_op(rng, W, H, cfg):
         data = [rng.choice([0, 255, 255, rng.randrange(256)]) for _ in range(mw * mh)]
         return "mask %s %d %d %d %d %s" % (src(), rng.randrange(-3, W + 1), rng.randrange(-3, H + 1), mw, mh,
                                            " ".join(map(str, data)))
+    if k == "surf":
+        # copy_surface / blend_surface / blend_surface_with_alpha of a small source surface (device space, no clip)
+        sw, sh = rng.randrange(1, 6), rng.randrange(1, 6)
+        simg = "%d %d %s" % (sw, sh, " ".join(gen.hexpx(gen.premul_pixel(rng)) for _ in range(sw * sh)))
+        kk = rng.choice(["copy 0", "blend %d" % rng.randrange(24), "alpha %d" % gen.alpha_bits(rng), "alpha %d" % gen.alpha_bits(rng)])
+        x0, y0 = rng.randrange(-1, 3), rng.randrange(-1, 3)
+        return "surf %s %s %d %d %d %d %d %d" % (kk, simg, x0, y0, x0 + rng.randrange(1, 7), y0 + rng.randrange(1, 7),
+                                                 rng.randrange(-2, W), rng.randrange(-2, H))
     if k == "drawimage":
         c = rng.random()
         x, y = (float(rng.randrange(-3, W + 1)), float(rng.randrange(-3, H + 1))) if c < 0.7 else (q(rng.randrange(-8, 4 * W)), q(rng.randrange(-8, 4 * H)))
@@ -280,6 +288,20 @@ def structured_ops(rng, W, H, cfg):
             else:
                 ops.append(draw_op(rng, W, H, cfg))
         ops.append("poplayer")
+        return ops
+    if rng.random() < 0.08:
+        # a run of layer groups with the SAME opacity and blend mode under different clip rectangles (anything cached per
+        # opacity, per size or per target between two pops shows here), sometimes an empty one in between
+        a, m = gen.alpha_bits(rng), (3 if rng.random() < 0.7 else rng.randrange(gen.N_MODES))
+        ops = []
+        for g in range(rng.randrange(2, 4)):
+            r = rand_rect(rng, W, H) if rng.random() < 0.8 else (0, 0, W, H)
+            ops.append("cliprect %d %d %d %d" % r)
+            ops.append("layer %d %d" % (a, m))
+            for _ in range(rng.randrange(0, 3)):
+                ops.append(draw_op(rng, W, H, cfg))
+            ops.append("poplayer")
+            ops.append("popclip")
         return ops
     ops, pops = [], []
     pre = []
